@@ -384,6 +384,9 @@ def tie_part(run, r, model, sim, cases, d):
                         # variable values right after the failing step (serial: early return; SMP: the step is finished)
                         run.mismatch("error-step", {"case": c, "which": which, "step": t}, ic.get("XERR"), mc.get("XERR"))
                     break
+                if mc.get("SS") == "BAD":
+                    run.mismatch("small-step-model", {"case": c, "step": t}, "atomic serial execution", "interleaved read/write-phase trace differs")
+                mc = {q: x for q, x in mc.items() if q != "SS"}
                 bad = [q for q in mc if ic.get(q) != mc[q]]
                 if bad:
                     comp = "items:smp-vs-serial" if "ITEMS" in bad or "BITEMS" in bad else ("evaluated:smp-vs-serial" if "EV" in bad or "CVC" in bad else "values:smp-vs-serial")
